@@ -569,10 +569,11 @@ def fresh_prints(specs, hashseeds, workers, order_seed):
             random.Random(order_seed + k).shuffle(order)
         pin = os.path.join(wd, "print_in_%d.json" % k)
         pout = os.path.join(wd, "print_out_%d.json" % k)
+        hist = str(hs).endswith("+esr")        # "<seed>+esr": the interpreter first runs ESR entry points (call history), then prints
         with open(pin, "w") as f:
-            json.dump({"specs": [specs[i] for i in order], "workers": workers}, f)
+            json.dump({"specs": [specs[i] for i in order], "workers": workers, "history": hist}, f)
         envv = dict(os.environ)
-        envv["PYTHONHASHSEED"] = str(hs)
+        envv["PYTHONHASHSEED"] = str(hs).split("+")[0]
         pr = subprocess.Popen([sys.executable, os.path.abspath(__file__), "--print", pin, pout], env=envv,
                               stdout=subprocess.PIPE, stderr=subprocess.STDOUT)
         procs.append((hs, order, pout, pr))
@@ -583,7 +584,7 @@ def fresh_prints(specs, hashseeds, workers, order_seed):
             raise RuntimeError("print subprocess (PYTHONHASHSEED=%s) failed with exit %s: %s" % (hs, pr.returncode, log.decode(errors="replace")[-1500:]))
         with open(pout) as f:
             got = json.load(f)
-        if got["hashseed"] != str(hs) or len(got["out"]) != len(order):
+        if got["hashseed"] != str(hs).split("+")[0] or len(got["out"]) != len(order):
             raise RuntimeError("print subprocess answered for hash seed %r, %d strings (wanted %s, %d)" % (got["hashseed"], len(got["out"]), hs, len(order)))
         res = [None] * len(specs)
         for pos, i in enumerate(order):
@@ -665,6 +666,18 @@ def print_main(pin, pout):
     with open(pin) as f:
         p = json.load(f)
     sys.setrecursionlimit(10000)
+    if p.get("history"):
+        # ESR entry points that touch sympy before anything is printed in this interpreter: the strings must not depend on it
+        import contextlib as _cl, io as _io
+        with _cl.redirect_stdout(_io.StringIO()):
+            import esr.generation.simplifier as _S
+            import esr.generation.generator as _G
+            _S.initial_sympify(["a0 + x", "a1*x**2 - a0"], 2, verbose=False, parallel=False)
+            _S.get_all_dup(2)
+            try:
+                _G.string_to_node("a0*x + 1/x", [["x", "a"], ["inv"], ["+", "*", "-", "/", "pow"]], evalf=True)
+            except Exception:
+                pass
     out = pmap(w_print, p["specs"], p.get("workers", 1))
     with open(pout, "w") as f:
         json.dump({"hashseed": os.environ.get("PYTHONHASHSEED"), "out": out}, f)
